@@ -124,7 +124,10 @@ def finish(prop, tier, seed, results, t0, extra_cov=None, level="proof", checker
         def norm(i):
             import re
             # line numbers and path / occurrence counters are not part of an obligation's identity
-            return re.sub(r"#\d+", "#*", re.sub(r"@L(\d+|None)", "@L*", i))
+            i = re.sub(r"#\d+", "#*", re.sub(r"@L(\d+|None)", "@L*", i))
+            # frame obligations are named after the store statement's text: only the function is part of the identity
+            # (an edited statement must not turn into "obligation no longer generated")
+            return re.sub(r"^(C12/frame/write/[^/]+)/.*$", r"\1", i)
         cur = set(norm(i) for i in ids)
         if tier == led.get("tier") or tier == "thorough":
             missing = sorted(set(norm(i) for i in led["ids"]) - cur)
